@@ -265,7 +265,7 @@ func c09Body(s *simkit.Sim, rc *simkit.RunCtx) {
 			nv.capInv[t] = true
 		}
 		kinds := []string{"honest-service", "honest-service", "honest-add-key", "honest-remove-old-key", "honest-set-controller", "honest-drop-controller", "honest-deactivate", "honest-new-did",
-			"attack-foreign-create", "attack-non-controller-key", "attack-assertion-only-key", "attack-removed-key", "attack-deactivated-controller-key",
+			"attack-foreign-create", "attack-non-controller-key", "attack-own-key-of-controlled-document", "attack-invalid-key-id-kid-in-jwk", "attack-assertion-only-key", "attack-removed-key", "attack-deactivated-controller-key",
 			"attack-invalid-id-prefix", "attack-invalid-duplicate-id", "attack-invalid-key-id", "attack-invalid-two-services-one-type", "attack-invalid-foreign-vm-controller"}
 		kind := kinds[s.D.Decide("kind", len(kinds))]
 		signer := keyByThumb(authThumbs[s.D.Decide("signer", len(authThumbs))])
@@ -377,6 +377,30 @@ func c09Body(s *simkit.Sim, rc *simkit.RunCtx) {
 			signer = keyByThumb(firstKey(outsider.latest().capInv))
 			signerDID = outsider
 			expectAuthorised = false
+		case "attack-own-key-of-controlled-document":
+			// the document names another DID as its only controller but still lists a capabilityInvocation key of its own: that key may not change it
+			if len(cur.controllers) == 0 || len(cur.capInv) == 0 {
+				continue
+			}
+			var own []string
+			for t := range cur.capInv {
+				if auth[t] == nil {
+					own = append(own, t)
+				}
+			}
+			sort.Strings(own)
+			if len(own) == 0 {
+				continue
+			}
+			signer, signerDID = keyByThumb(own[0]), target
+			expectAuthorised = false
+		case "attack-invalid-key-id-kid-in-jwk":
+			// the key id is not the key's thumbprint, and the embedded JWK claims that id as its kid
+			nk := newC9Key()
+			vm, _ := did.NewVerificationMethod(did.DIDURL{DID: target.id, Fragment: "not-the-thumbprint"}, ssi.JsonWebKey2020, target.id, nk.priv.Public())
+			vm.PublicKeyJwk["kid"] = "not-the-thumbprint"
+			next.AddCapabilityInvocation(vm)
+			valid = false
 		case "attack-assertion-only-key":
 			// a key of the target itself that only has the assertionMethod relationship: first add it (honestly), then use it
 			nk := newC9Key()
